@@ -6,6 +6,10 @@ import RF.Driver.FormatDiff
 import RF.Driver.Backup
 import RF.Driver.Modules
 import RF.Driver.Sort
+import RF.Driver.Skip
+import RF.Driver.Newline
+import RF.Driver.Shape
+import RF.Driver.Session
 /-!
 `rfmodel`: one request per line on stdin, one response per line on stdout.
 `?` is printed for a request no handler understands (the harness treats it as a protocol error,
@@ -20,7 +24,11 @@ def handlers : List (String → List String → Option String) :=
    RF.Driver.FormatDiff.handle,
    RF.Driver.Backup.handle,
    RF.Driver.Modules.handle,
-   RF.Driver.Sort.handle]
+   RF.Driver.Sort.handle,
+   RF.Driver.Skip.handle,
+   RF.Driver.Newline.handle,
+   RF.Driver.Shape.handle,
+   RF.Driver.Session.handle]
 
 def dispatch (line : String) : String :=
   match (line.trimAscii.toString.splitOn " ").filter (· ≠ "") with
